@@ -9,6 +9,12 @@ package main
 //   retry  the stored reception timestamp is moved back by the chosen residence time (hook
 //          VerifSetReceptionTime), then the pending_bundles job runs (or a peer appears, which runs it)
 //   clean  the clean_store job runs
+//   dup    the SAME bundle (same ID; optionally a copy that took another path: other hop count, age,
+//          previous node) is handed in again through the receive path, from the node's own endpoint,
+//          the peer or a third endpoint.  While the first copy is still stored the duplicate changes
+//          nothing: later retries still count the residence from the FIRST reception (the stamp set
+//          through the hook before the duplicate, or the real reception).  When the bundle has left the
+//          store meanwhile, the duplicate is a new reception.
 // Per round the case records: a bracket [now_lo, now_hi] of the clock (DTN ms) around the round, a
 // bracket [res_lo, res_hi] of the residence time in ms, every Send call for this bundle (the bytes
 // serialised inside Send parsed back and dumped, whether they pass CheckValid, the re-encoded
@@ -175,13 +181,32 @@ func fwCopy(b bpv7.Bundle) bpv7.Bundle {
 	return c
 }
 
+// fwVary turns a copy into the same bundle as it arrives over another path: more hops, older,
+// another previous node (the bundle ID, the primary block and the payload are the same).
+func fwVary(b *bpv7.Bundle) {
+	for i := range b.CanonicalBlocks {
+		switch v := b.CanonicalBlocks[i].Value.(type) {
+		case *bpv7.HopCountBlock:
+			if v.Count < 255 {
+				v.Count++
+			}
+		case *bpv7.BundleAgeBlock:
+			v.Increment(777)
+		case *bpv7.PreviousNodeBlock:
+			b.CanonicalBlocks[i].Value = bpv7.NewPreviousNodeBlock(MustEID("dtn://otherpath/"))
+		}
+	}
+}
+
 // ---- scenario ----
 type fwRound struct {
-	kind    string // retry | clean
+	kind    string // retry | clean | dup
 	resMs   uint64 // residence to set before a retry
 	viaPeer bool   // the retry is triggered by the peer's appearance (peer was not up before)
 	sleepMs int    // real sleep before the round (expiry stream only)
-	keep    bool   // do not rewrite the stored reception timestamp: the residence keeps counting from the stamp of the previous round
+	keep    bool   // do not rewrite the stored reception timestamp: the residence keeps counting from the stamp of the previous round (or, when none was set, from the reception itself)
+	from    int    // dup: handed in at 0 = the node's endpoint, 1 = the peer's, 2 = a third endpoint
+	variant bool   // dup: the duplicate took another path (hop count, age, previous node differ)
 }
 
 type fwScenario struct {
@@ -329,7 +354,7 @@ func fwRunCase(o *Out, r *Rng, e *fwEnv, sc fwScenario, spec *fwSpec, stream str
 		recvStart, recvEnd = t0, t1
 		resHi := uint64(t1.Sub(t0).Milliseconds()) + 1
 		rounds = append(rounds, L(Sym("recv"), U(fwDtnMs(t0)-2), U(fwDtnMs(t1)+2), U(0), U(resHi),
-			fwSends(n, after, id), B(n.Knows(bid)), B(peerUp), fwConstraints(n, bid), B(true)))
+			fwSends(n, after, id), B(n.Knows(bid)), B(peerUp), fwConstraints(n, bid), B(true), B(false)))
 	}
 	var lastStamp time.Time
 	haveStamp := false
@@ -343,8 +368,11 @@ func fwRunCase(o *Out, r *Rng, e *fwEnv, sc fwScenario, spec *fwSpec, stream str
 			var stamp time.Time
 			known := n.Knows(bid)
 			setOK := false
-			if known && rd.keep && haveStamp {
-				stamp, setOK = lastStamp, true
+			if known && rd.keep {
+				// nothing is rewritten: counted from the last stamp set, or from the reception itself
+				if haveStamp {
+					stamp, setOK = lastStamp, true
+				}
 			} else if known {
 				stamp = time.Now().Add(-time.Duration(rd.resMs) * time.Millisecond)
 				setOK = n.Core.VerifSetReceptionTime(bid, stamp) == nil
@@ -381,13 +409,47 @@ func fwRunCase(o *Out, r *Rng, e *fwEnv, sc fwScenario, spec *fwSpec, stream str
 				lo--
 			}
 			rounds = append(rounds, L(Sym("retry"), U(fwDtnMs(t0)-2), U(fwDtnMs(t1)+2), U(lo), U(hi),
-				fwSends(n, after, id), B(n.Knows(bid)), B(peerUp), fwConstraints(n, bid), B(allowed)))
+				fwSends(n, after, id), B(n.Knows(bid)), B(peerUp), fwConstraints(n, bid), B(allowed), B(known)))
+		case "dup":
+			known := n.Knows(bid)
+			if known && rd.resMs > 0 {
+				// the bundle has been here for resMs already when the duplicate arrives
+				stamp := time.Now().Add(-time.Duration(rd.resMs) * time.Millisecond)
+				if n.Core.VerifSetReceptionTime(bid, stamp) == nil {
+					lastStamp, haveStamp = stamp, true
+				}
+			}
+			d := fwCopy(accepted)
+			if known && rd.variant {
+				fwVary(&d)
+			}
+			from := []string{fwNodeID, peerEID, "dtn://elsewhere/"}[rd.from%3]
+			t0 := time.Now()
+			n.Receive(d, from)
+			t1 := time.Now()
+			var lo, hi uint64
+			switch {
+			case !known: // the bundle had left the store: a new reception
+				recvStart, recvEnd, haveStamp = t0, t1, false
+				hi = uint64(t1.Sub(t0).Milliseconds()) + 1
+			case haveStamp:
+				lo = uint64(t0.Sub(lastStamp).Milliseconds())
+				hi = uint64(t1.Sub(lastStamp).Milliseconds()) + 1
+			default:
+				lo = uint64(t0.Sub(recvEnd).Milliseconds())
+				hi = uint64(t1.Sub(recvStart).Milliseconds()) + 1
+			}
+			if lo > 0 {
+				lo--
+			}
+			rounds = append(rounds, L(Sym("dup"), U(fwDtnMs(t0)-2), U(fwDtnMs(t1)+2), U(lo), U(hi),
+				fwSends(n, after, id), B(n.Knows(bid)), B(peerUp), fwConstraints(n, bid), B(true), B(known)))
 		case "clean":
 			t0 := time.Now()
 			n.TickClean()
 			t1 := time.Now()
 			rounds = append(rounds, L(Sym("clean"), U(fwDtnMs(t0)-2), U(fwDtnMs(t1)+2), U(0), U(0),
-				LL(nil), B(n.Knows(bid)), B(peerUp), fwConstraints(n, bid), B(true)))
+				LL(nil), B(n.Knows(bid)), B(peerUp), fwConstraints(n, bid), B(true), B(false)))
 		}
 	}
 	o.Case("fwd", Sym(stream), Sym(sc.alg), Str(fwNodeID), dumpBundle(&accepted), X(fwPrimaryBytes(&accepted)), LL(rounds))
@@ -523,6 +585,74 @@ func fwRandScenario(r *Rng, alg string) fwScenario {
 	return sc
 }
 
+// fwDupScenario: histories in which the same bundle is received again between its reception and a
+// (first or later) transmission.  The duplicates come 1-3 at a time, from the node's endpoint, the
+// peer or a third endpoint, as exact copies or as copies that took another path; the residence is
+// hook-shifted (the stamp is moved back once, BEFORE a duplicate, and never rewritten afterwards) or
+// real (short sleeps); every retry after a duplicate keeps the stamp.
+func fwDupScenario(r *Rng, alg string) fwScenario {
+	sc := fwScenario{alg: alg}
+	dups := func(first uint64, real bool) {
+		k := 1 + r.Intn(3)
+		for i := 0; i < k; i++ {
+			rd := fwRound{kind: "dup", from: r.Intn(3), variant: r.Intn(3) == 0}
+			if i == 0 {
+				rd.resMs = first
+			}
+			if real {
+				rd.sleepMs = 30 + r.Intn(30)
+			}
+			sc.rounds = append(sc.rounds, rd)
+		}
+	}
+	shifted := []uint64{3000, 3000, 1500, 60000}[r.Intn(4)]
+	real := r.Intn(6) == 0
+	if real {
+		shifted = 0
+	}
+	keep := func(viaPeer bool) {
+		rd := fwRound{kind: "retry", keep: true, viaPeer: viaPeer}
+		if real {
+			rd.sleepMs = 30 + r.Intn(30)
+		}
+		sc.rounds = append(sc.rounds, rd)
+	}
+	switch r.Intn(6) {
+	case 0, 1: // stored without a peer; duplicates; the peer appears: FIRST transmission
+		dups(shifted, real)
+		keep(true)
+	case 2: // the peer refuses once or twice; duplicates between the attempts
+		sc.peerFirst = true
+		sc.fails = 1 + r.Intn(2)
+		dups(shifted, real)
+		keep(false)
+		if sc.fails == 2 {
+			dups(0, real)
+			keep(false)
+		}
+	case 3: // stored without a peer, duplicates, the appearing peer refuses, more duplicates, later retries
+		sc.fails = 2
+		dups(shifted, real)
+		keep(true)
+		dups(0, false)
+		keep(false)
+		dups(0, real)
+		keep(false)
+	case 4: // an ordinary retry (stamp rewritten by the hook) first, then duplicates, then the retry that sends
+		sc.peerFirst = true
+		sc.fails = 2
+		sc.rounds = append(sc.rounds, fwRound{kind: "retry", resMs: 2000 + fwResidences[r.Intn(3)]})
+		dups(0, real)
+		keep(false)
+	default: // transmitted at once; the duplicate finds the bundle still retained (ignored) or gone (a new
+		// reception, transmitted as such); one more retry
+		sc.peerFirst = true
+		dups(0, false)
+		keep(false)
+	}
+	return sc
+}
+
 func genC06forward(o *Out, r *Rng, thorough bool) {
 	fwFastWorkDir()
 	registerAllBlocks()
@@ -594,6 +724,25 @@ func genC06forward(o *Out, r *Rng, thorough bool) {
 			sc.rounds[0].sleepMs = 60
 		}
 		fwRunCase(o, r, e, sc, s, "mix")
+	}
+
+	// ---- stream "dup": the same bundle received again while it waits for its transmission ----
+	ndup := 150
+	if thorough {
+		ndup = 3000
+	}
+	for i := 0; i < ndup; i++ {
+		alg := fwAlgs[i%len(fwAlgs)]
+		s := fwRandSpec(r, next())
+		s.direct = fwDirectFor(r, alg)
+		if s.age == nil && r.Intn(4) != 0 {
+			a := r.Pick([]uint64{0, 1, 999, 65535, 3599000})
+			s.age = &a
+			if a+120000 >= s.life {
+				s.life = a + 3600000
+			}
+		}
+		fwRunCase(o, r, e, fwDupScenario(r, alg), s, "dup")
 	}
 
 	// ---- stream "unk": one unknown block with each of the 16 flag combinations x first / retry ----
